@@ -87,6 +87,7 @@ NextWeights ==
     /\ LET e == TheTrace[l] IN
        /\ e.e = "NextWeights" /\ e.usedId = e.refId
        /\ ("sumZero" \in DOMAIN e) => (e.sumZero = 1 /\ e.moved = 1)
+       /\ ("dataEqual" \in DOMAIN e) => e.dataEqual = 1   \* (channels with identical densities: the driver's premise)
     /\ l' = l + 1 /\ UNCHANGED <<run, disabled, lastId, lastAllZero>>
 Next == RefCase \/ InitCase \/ RefAny \/ RunWeights \/ NextWeights
 Spec == Init /\ [][Next]_vars
